@@ -546,7 +546,7 @@ F_PARAMS = {"detect": dict(eta=0.0, epsilon=0.1, epsilon_prime=0.05), "dephasing
 F_NOISE = {"detect": "SPAM", "dephasing": "dephasing", "relaxation": "relaxation"}
 F_OPS = [("init", "plus"), ("init", "r"), ("init", "all-ground"),
          ("set", "default"), ("set", "detect"), ("set", "dephasing"), ("add", "detect"), ("add", "dephasing"), ("add", "relaxation"),
-         ("reset",), ("eval", "Minimal"), ("eval", "list"), ("eval", 0.5)]
+         ("reset",), ("eval", "Minimal"), ("eval", "list"), ("eval", 0.5), ("run",), ("observe",)]
 
 
 def _f_state(label, n):
@@ -571,6 +571,15 @@ def _f_apply(E, op, n, T):
         E.reset_config()
     elif op[0] == "eval":
         E.set_evaluation_times([0.0, T / 2000.0, T / 1000.0] if op[1] == "list" else op[1])
+    elif op[0] == "run":  # an earlier run must not leave anything behind
+        r = E.run()
+        r.states[-1].full()[...] = 0.0
+    elif op[0] == "observe":  # read-only uses, and the caller editing what they return
+        E.get_hamiltonian(0.0).full()[...] = 0.0
+        E.initial_state.full()[...] = 0.0
+        np.asarray(E.evaluation_times)[...] = 0.0 if False else np.asarray(E.evaluation_times)
+        E.config
+        E.sampling_times
 
 
 def emu_history_cases(tier):
@@ -616,7 +625,7 @@ def check_emu_history(prog, h):
                 params.update(F_PARAMS[op[1]])
         elif op[0] == "reset":
             noises, params = [], {}
-        else:
+        elif op[0] == "eval":
             ev = op[1]
     hist = [F_OPS[j] for j in h]
     fp_tail = "+".join(sorted({F_OPS[j][0] for j in h}))
@@ -708,8 +717,8 @@ def run(tier, seed):
              "legacy result and the V2 state; (D) every tape of numpy.random answers (interval interiors and end points) for 1-2 shots "
              "on 4 distributions x 4 detection-error settings; (E) state-preparation errors with and without dissipation: every pattern "
              "of badly prepared atoms over 2-3 runs (RNG tape), stored state physical and equal to the repetition-weighted mixture; (F) the "
-             "legacy emulator as a stateful object: every history of <= 3 (thorough 4) calls over 13 configuration calls "
-             "(set_initial_state x 3, set_config x 3, add_config x 3, reset_config, set_evaluation_times x 3) on one emulator vs a "
+             "legacy emulator as a stateful object: every history of <= 3 (thorough 4) calls over 15 calls "
+             "(set_initial_state x 3, set_config x 3, add_config x 3, reset_config, set_evaluation_times x 3, run, observers) on one emulator vs a "
              "fresh emulator configured directly with the net settings of a plain reference model, for a zero drive and a pi pulse",
         samples=[repr(cases[i])[:160] for i in (0, len(cases) // 2, len(cases) - 1)])
     res.assumptions = ["solver accuracy: norms / traces 1e-5, positivity -1e-6, V2 vs legacy states 2e-4 (different evaluation grids change the adaptive steps); the analytic Rabi value is "
